@@ -48,11 +48,12 @@ def e2e_update(r):
             with open(os.path.join(outdir, "counter"), "w") as f:
                 f.write("0")
             return subprocess.run([SCRUT_BIN] + args, cwd=root, env=env, stdout=subprocess.PIPE, stderr=subprocess.PIPE, timeout=60)
-        u1 = scrut(["update", "--no-color", "--replace", "--assume-yes"] + esc + [doc])
+        langs = ["--markdown-languages", "scrut", "sh"]
+        u1 = scrut(["update", "--no-color", "--replace", "--assume-yes"] + esc + [doc] + langs)
         after1 = open(doc, errors="replace").read()
-        u2 = scrut(["update", "--no-color", "--replace", "--assume-yes"] + esc + [doc])
+        u2 = scrut(["update", "--no-color", "--replace", "--assume-yes"] + esc + [doc] + langs)
         after2 = open(doc, errors="replace").read()
-        t = scrut(["test", "--no-color", "-r", "json", doc])
+        t = scrut(["test", "--no-color", "-r", "json", doc] + langs)
         problems = []
         if u1.returncode != 0:
             problems.append(f"update exits {u1.returncode}: {u1.stderr.decode('utf-8', 'replace')[-160:]}")
@@ -98,6 +99,13 @@ def run(prop, tier, replay=None):
     write_ndjson(vpath, vectors)
     harness(["update-replay", "--vectors", vpath, "--records", rpath, "--seed", s])
     records = read_ndjson(rpath)
+    unrealised = [r for r in records if r["ev"] == "Unrealised"]
+    records = [r for r in records if r["ev"] != "Unrealised"]
+    if unrealised:
+        # an outcome assignment the harness could not realise with constructed outputs (on the unchanged tree: none)
+        print(f"DRIFT update: {len(unrealised)} outcome assignment(s) could not be realised with constructed outputs and were not judged")
+    if len(unrealised) > len(records):
+        raise ToolError("most outcome assignments could not be realised")
     if not records:
         raise ToolError("no document was usable for update")
     # end to end sample: the real `scrut update --replace -y` with commands that produce the record's outputs; a failure
